@@ -335,7 +335,10 @@ public:
 				*this = 0;
 				return *this;
 			}
-			if constexpr (sizeof(BlockType) == 1) {
+			if (rhs._block[0] == ALL_ONES) { // division by -1 negates modulo 2^nbits: the native division would overflow on the most negative value
+				_block[0] = static_cast<bt>(0 - _block[0]);
+			}
+			else if constexpr (sizeof(BlockType) == 1) {
 				_block[0] = static_cast<bt>(std::int8_t(_block[0]) / std::int8_t(rhs._block[0]));
 			}
 			else if constexpr (sizeof(BlockType) == 2) {
@@ -361,7 +364,10 @@ public:
 				*this = 0;
 				return *this;
 			}
-			if constexpr (sizeof(BlockType) == 1) {
+			if (rhs._block[0] == ALL_ONES) { // the remainder of a division by -1 is 0: the native remainder would overflow on the most negative value
+				_block[0] = 0;
+			}
+			else if constexpr (sizeof(BlockType) == 1) {
 				_block[0] = static_cast<bt>(std::int8_t(_block[0]) % std::int8_t(rhs._block[0]));
 			}
 			else if constexpr (sizeof(BlockType) == 2) {
